@@ -177,7 +177,12 @@ func (e *SBool) String() string  { return fmt.Sprint(e.V) }
 func (e *SStr) String() string   { return strconv.Quote(e.V) }
 func (e *SNil) String() string   { return "nil" }
 func (e *SIdent) String() string { return e.Name }
-func (e *SUnary) String() string { return e.Op + e.X.String() }
+func (e *SUnary) String() string {
+	if e.Op == "*" {
+		return "(*" + e.X.String() + ")"
+	}
+	return e.Op + e.X.String()
+}
 func (e *SBinary) String() string {
 	return "(" + e.X.String() + " " + e.Op + " " + e.Y.String() + ")"
 }
